@@ -111,3 +111,157 @@ fn u1_implementors_agree() {
     core::mem::forget(wk);
     core::mem::forget(a);
 }
+
+// ------------------------------------------------------------- U7 Weak / handle API
+
+fn weak_of<T>(a: &Rc<T>) -> Weak<T> {
+    Weak { ptr: a.ptr, phantom: PhantomData }
+}
+
+/// upgrade: Some (same allocation, strong+1) iff strong is neither 0 nor the sentinel; else None and no write.
+#[kani::proof]
+fn u7_upgrade() {
+    let a = Rc::new(0u8);
+    let (s, w) = any_counts();
+    kani::assume(s != MAX - 1);
+    set_counts(&a, s, w);
+    let wk = weak_of(&a);
+    let r = wk.upgrade();
+    if s == 0 || s == MAX {
+        assert!(r.is_none(), "U7.upgrade.none_iff_dead");
+        assert!(a.inner().strong() == s && a.inner().weak() == w, "U7.upgrade.none_writes_nothing");
+    } else {
+        assert!(r.is_some(), "U7.upgrade.some_iff_live");
+        if let Some(rc) = &r {
+            assert!(rc.ptr == a.ptr, "U7.upgrade.same_allocation");
+        }
+        assert!(a.inner().strong() == s + 1, "U7.upgrade.strong_plus_one");
+        assert!(a.inner().weak() == w, "U7.upgrade.frame.weak");
+    }
+    core::mem::forget(r);
+    core::mem::forget(wk);
+    core::mem::forget(a);
+}
+
+#[kani::proof]
+fn u7_upgrade_overflow_aborts() {
+    let a = Rc::new(0u8);
+    let w: usize = kani::any();
+    set_counts(&a, MAX - 1, w);
+    let wk = weak_of(&a);
+    let r = wk.upgrade();
+    kani::cover!(true, "RETURNED-FROM-ABORT");
+    core::mem::forget(r);
+    core::mem::forget(wk);
+    core::mem::forget(a);
+}
+
+/// counts seen through a Weak
+#[kani::proof]
+fn u7_weak_counts() {
+    let a = Rc::new(0u8);
+    let (s, w) = any_counts();
+    kani::assume(w >= 1);
+    set_counts(&a, s, w);
+    let wk = weak_of(&a);
+    let sc = wk.strong_count();
+    let wc = wk.weak_count();
+    assert!(sc == (if s == MAX { 0 } else { s }), "U7.weak_strong_count.zero_iff_gone_else_strong");
+    let want = if s == MAX || s == 0 { 0 } else { w - 1 };
+    assert!(wc == want, "U7.weak_weak_count.zero_when_dead_else_weak_minus_implicit");
+    assert!(a.inner().strong() == s && a.inner().weak() == w, "U7.weak_counts.read_only");
+    core::mem::forget(wk);
+    core::mem::forget(a);
+}
+
+/// Weak::drop: weak-1; the allocation is released iff that was the last weak.
+#[kani::proof]
+fn u7_weak_drop_keeps_allocation() {
+    let a = Rc::new(0u8);
+    let (s, w) = any_counts();
+    kani::assume(w >= 2);
+    set_counts(&a, s, w);
+    let wk = weak_of(&a);
+    drop(wk);
+    // still allocated: these reads are checked by CBMC's pointer checks
+    assert!(a.inner().weak() == w - 1, "U7.weak_drop.weak_minus_one");
+    assert!(a.inner().strong() == s, "U7.weak_drop.frame.strong");
+    core::mem::forget(a);
+}
+
+#[kani::proof]
+fn u7_weak_drop_releases_last() {
+    let a = Rc::new(0u8);
+    let s: usize = kani::any();
+    set_counts(&a, s, 1);
+    let p = a.ptr.as_ptr();
+    let wk = weak_of(&a);
+    core::mem::forget(a);
+    drop(wk);
+    // Probe: this read must be refuted by CBMC as a use of a deallocated object (the registry
+    // expects exactly that failure and nothing else), which shows the allocation was released.
+    let probe = unsafe { *(p as *const usize) };
+    assert!(probe == 0 || probe != 0, "PROBE-AFTER-RELEASE");
+}
+
+/// dangling Weak (Weak::new): inert in every operation
+#[kani::proof]
+fn u7_weak_new_inert() {
+    let wk: Weak<u8> = Weak::new();
+    let up = wk.upgrade();
+    assert!(up.is_none(), "U7.weak_new.upgrade_none");
+    core::mem::forget(up);
+    assert!(wk.strong_count() == 0 && wk.weak_count() == 0, "U7.weak_new.counts_zero");
+    let c = wk.clone();
+    assert!(c.ptr_eq(&wk), "U7.weak_new.clone_ptr_eq");
+    drop(c);
+    drop(wk);
+}
+
+/// clone / downgrade / Weak::clone move exactly one counter by one and preserve the pointer
+#[kani::proof]
+fn u7_handle_creation() {
+    let a = Rc::new(0u8);
+    let (s, w) = any_counts();
+    kani::assume(s != 0 && s != MAX && s != MAX - 1);
+    kani::assume(w != 0 && w < MAX - 1);
+    set_counts(&a, s, w);
+    let c = a.clone();
+    assert!(c.ptr == a.ptr, "U7.clone.same_allocation");
+    assert!(a.inner().strong() == s + 1 && a.inner().weak() == w, "U7.clone.strong_plus_one_only");
+    assert!(Rc::ptr_eq(&a, &c), "U7.ptr_eq.same_allocation_true");
+    assert!(Rc::as_ptr(&a) == Rc::as_ptr(&c), "U7.as_ptr.agree");
+    let d = Rc::downgrade(&a);
+    assert!(d.ptr == a.ptr, "U7.downgrade.same_allocation");
+    assert!(a.inner().strong() == s + 1 && a.inner().weak() == w + 1, "U7.downgrade.weak_plus_one_only");
+    let d2 = d.clone();
+    assert!(d2.ptr == a.ptr && d2.ptr_eq(&d), "U7.weak_clone.same_allocation");
+    assert!(a.inner().strong() == s + 1 && a.inner().weak() == w + 2, "U7.weak_clone.weak_plus_one_only");
+    assert!(Rc::strong_count(&a) == s + 1, "U7.strong_count.is_strong");
+    assert!(Rc::weak_count(&a) == w + 2 - 1, "U7.weak_count.is_weak_minus_implicit");
+    assert!(d.as_ptr() == Rc::as_ptr(&a), "U7.weak_as_ptr.agrees_with_rc");
+    core::mem::forget((c, d, d2, a));
+}
+
+#[kani::proof]
+fn u7_identity() {
+    let a = Rc::new(1u8);
+    let b = Rc::new(1u8);
+    assert!(!Rc::ptr_eq(&a, &b), "U7.ptr_eq.distinct_allocations_false");
+    assert!(Rc::as_ptr(&a) != Rc::as_ptr(&b), "U7.as_ptr.distinct");
+    let (s, w) = any_counts();
+    set_counts(&a, s, w);
+    let pa = a.ptr;
+    let raw = Rc::into_raw(a);
+    let a2 = unsafe { Rc::from_raw(raw) };
+    assert!(a2.ptr == pa, "U7.raw_roundtrip.same_allocation");
+    assert!(a2.inner().strong() == s && a2.inner().weak() == w, "U7.raw_roundtrip.counts_untouched");
+    assert!(unsafe { *raw } == 1, "U7.into_raw.points_at_value");
+    let wk = weak_of(&a2);
+    let wraw = wk.into_raw();
+    assert!(wraw == raw, "U7.weak_into_raw.points_at_value");
+    let wk2 = unsafe { Weak::from_raw(wraw) };
+    assert!(wk2.ptr == pa, "U7.weak_raw_roundtrip.same_allocation");
+    assert!(a2.inner().strong() == s && a2.inner().weak() == w, "U7.weak_raw_roundtrip.counts_untouched");
+    core::mem::forget((wk2, a2, b));
+}
